@@ -174,6 +174,9 @@ def py_resolve(base, rel):
     return '/'.join(fold(st, rel.split('/')))
 
 
+XCHECK = []
+
+
 def run_fn(mod, res, name, nargs, lens, pending):
     fn = [x for x in mod.index if x == name and mod.headers[x].startswith('fn ')]
     if len(fn) != 1:
@@ -241,6 +244,8 @@ def run_fn(mod, res, name, nargs, lens, pending):
                         diff = z3.Or([a != b for a, b in zip(got, want)]) if want else z3.BoolVal(False)
                         ok, model = exe.check(exe.base + q.pc + g + g2 + [diff], want_model=True)
                     res.query('sat' if ok else 'unsat')
+                    if len(XCHECK) < 6 and len(want) == len(got) and want and not ok:
+                        XCHECK.append((exe.base + q.pc + g + g2 + [diff], 'unsat'))
                     if ok and len(pending) < 20:
                         pending.append((name, 'value', model, paths))
         res.functions.append({'fn': 'path::%s' % name, 'segments': list(ls), 'paths': len(done)})
@@ -312,6 +317,15 @@ def main(tier):
     n = run_fn(mod, res, 'resolve', 2, lens2, pending)
     n += run_fn(mod, res, 'normalize', 1, [(k,) for k in range(1, nmax + 1)], pending)
     log('[C13] %d obligations, %d candidate deviations (%.1fs)' % (n, len(pending), time.time() - t))
+    if tier == 'thorough':
+        # the same queries on the other solvers (string theory: cvc5 and the older z3)
+        from lib import smt
+        for k, (asserts, verdict) in enumerate(XCHECK):
+            try:
+                res.coverage.setdefault('cross_solver', {})['value query %d' % k] = smt.cross_check(asserts, verdict, timeout=60)
+            except smt.SolverDisagreement as e:
+                res.inconc('cross-solver: %s' % e)
+    del XCHECK[:]
     seen = set()
     for name, cls, model, paths in pending:
         if (name, cls) in seen or model is None:
